@@ -220,7 +220,7 @@ def run_design(n, edges, kinds, order, placement, res):
         raised = None
     except Exception as e:
         raised = e
-        Wire.prepared = []
+        core.reset_prepared()
     if expect_refuse:
         res['cyclic'] += 1
         if raised is None:
